@@ -356,17 +356,24 @@ def instances(tier):
         out.append(Inst(ids, dict(k=4, npeers=2, chosen=False), budget=150))
         out.append(Inst(ids, dict(k=4, npeers=3, chosen=False), budget=150))
         out.append(Inst(ids, dict(k=3, npeers=1, chosen=True), budget=150))
+        out.append(Inst(ids, dict(k=5, npeers=3, chosen=False), budget=200, path_timeout=120))
+        out.append(Inst(ids, dict(k=6, npeers=2, chosen=False), budget=200, path_timeout=120))
+        out.append(Inst(ids, dict(k=4, npeers=1, chosen=True), budget=200, path_timeout=120))
         for kind in REPLY_KINDS:
             out.append(Inst(demux, dict(kind=kind), budget=60))
-        for kind in ("simple-ack", "complex-ack", "error", "abort-srv", "segment-ack-srv"):
+        for kind in REPLY_KINDS:
             out.append(Inst(demux_routed, dict(kind=kind), budget=60))
         out.append(Inst(cross_roles, {}, budget=90))
         out.append(Inst(dup_request, {}, budget=60))
     else:
         out.append(Inst(ids, dict(k=5, npeers=3, chosen=False), budget=900, path_timeout=120))
         out.append(Inst(ids, dict(k=6, npeers=2, chosen=False), budget=900, path_timeout=120))
+        out.append(Inst(ids, dict(k=6, npeers=3, chosen=False), budget=1800, path_timeout=120))
+        out.append(Inst(ids, dict(k=8, npeers=2, chosen=False), budget=1800, path_timeout=120))
         out.append(Inst(ids, dict(k=3, npeers=2, chosen=True), budget=900, path_timeout=120))
+        out.append(Inst(ids, dict(k=4, npeers=2, chosen=True), budget=1800, path_timeout=120))
         out.append(Inst(ids, dict(k=4, npeers=1, chosen=True), budget=900, path_timeout=120))
+        out.append(Inst(ids, dict(k=5, npeers=1, chosen=True), budget=1800, path_timeout=120))
         for kind in REPLY_KINDS:
             out.append(Inst(demux, dict(kind=kind), budget=300))
             out.append(Inst(demux_routed, dict(kind=kind), budget=300))
